@@ -405,6 +405,10 @@ func cmdCheck(args []string) int {
 				fmt.Printf("VIOLATION property=%s replay=%s%s\n", prop, path, replaySuffix(path))
 				exit = 1
 			}
+		} else if W.contractStale(o.Fn) {
+			// a clause of this function's contract no longer evaluates (e.g. a local it names was renamed):
+			// the proof may fail for lack of that clause alone - undecided, not a violation
+			undecided = append(undecided, o.Name+" ("+r.res.Status+"; CONTRACT-STALE: a clause of this contract does not evaluate on this tree)")
 		} else if baseline[o.Name] || baselineStems[obligationStem(o.Name)] || (o.Kind == "frame" && baseline[o.Fn+"/frame:(declared)"]) {
 			violations++
 			path := writeReplay(prop, o, r, W, "")
